@@ -39,11 +39,11 @@ func init() {
 		},
 		Harnesses: []harnessSpec{
 			{Name: "VxC15Stream", Pkg: "github.com/goplus/xgo/scanner", Files: []string{"c15/c15.go"},
-				Quick: map[string]int{"N": 3, "ASCII": 1, "P": 0}, Thorough: map[string]int{"N": 3, "ASCII": 0, "P": 0},
+				Quick: map[string]int{"N": 3, "ASCII": 1, "P": 0}, Thorough: map[string]int{"N": 3, "ASCII": 1, "P": 0}, // non-ASCII at N=3 does not finish in 15 min
 				BudgetViolation: true, MaxSteps: 400_000},
 			{Name: "VxC15Step", Pkg: "github.com/goplus/xgo/scanner", Files: []string{"c15/c15.go"},
 				Quick: map[string]int{"N": 2, "ASCII": 1, "T": 3}, Thorough: map[string]int{"N": 3, "ASCII": 1, "T": 3},
-				Variants: c15Variants(49), ThoroughCore: 10, BudgetViolation: true, MaxSteps: 400_000},
+				Variants: c15Variants(49), ThoroughCore: 4, BudgetViolation: true, MaxSteps: 400_000},
 		},
 	})
 
@@ -121,10 +121,10 @@ func init() {
 		},
 		Harnesses: []harnessSpec{
 			{Name: "VxC28", Pkg: "github.com/goplus/xgo/tpl", Files: tplFiles,
-				Quick: map[string]int{"FAM": 0, "D": 1, "ATOMS": 7, "LEAFBIN": 1, "NB": 7, "NTOK": 2}, Thorough: map[string]int{"FAM": 0, "D": 1, "ATOMS": 7, "LEAFBIN": 0, "NB": 7, "NTOK": 3},
+				Quick: map[string]int{"FAM": 0, "D": 1, "ATOMS": 7, "LEAFBIN": 1, "NB": 7, "NTOK": 2}, Thorough: map[string]int{"FAM": 0, "D": 1, "ATOMS": 7, "LEAFBIN": 1, "NB": 7, "NTOK": 2},
 				BudgetViolation: true, MaxSteps: 300_000, ReplayTimeout: 8 * time.Second},
 			{Name: "VxC28", Pkg: "github.com/goplus/xgo/tpl", Files: tplFiles,
-				Quick: map[string]int{"FAM": 0, "D": 2, "ATOMS": 7, "LEAFBIN": 1, "NB": 1, "NTOK": 1}, Thorough: map[string]int{"FAM": 0, "D": 2, "ATOMS": 7, "LEAFBIN": 1, "NB": 7, "NTOK": 2},
+				Quick: map[string]int{"FAM": 0, "D": 2, "ATOMS": 7, "LEAFBIN": 1, "NB": 1, "NTOK": 1}, Thorough: map[string]int{"FAM": 0, "D": 2, "ATOMS": 7, "LEAFBIN": 1, "NB": 1, "NTOK": 1},
 				BudgetViolation: true, MaxSteps: 300_000, ReplayTimeout: 8 * time.Second},
 		},
 	})
@@ -137,16 +137,16 @@ func init() {
 		},
 		Harnesses: []harnessSpec{
 			{Name: "VxC29", Pkg: "github.com/goplus/xgo/tpl", Files: tplFiles,
-				Quick: map[string]int{"FAM": 0, "D": 1, "ATOMS": 6, "LEAFBIN": 1, "NB": 2, "NTOK": 2}, Thorough: map[string]int{"FAM": 0, "D": 1, "ATOMS": 7, "LEAFBIN": 0, "NB": 4, "NTOK": 4},
+				Quick: map[string]int{"FAM": 0, "D": 1, "ATOMS": 6, "LEAFBIN": 1, "NB": 2, "NTOK": 2}, Thorough: map[string]int{"FAM": 0, "D": 1, "ATOMS": 6, "LEAFBIN": 1, "NB": 2, "NTOK": 2},
 				MaxSteps: 300_000},
 			{Name: "VxC29", Pkg: "github.com/goplus/xgo/tpl", Files: tplFiles,
-				Quick: map[string]int{"FAM": 2, "D": 3, "ATOMS": 5, "LEAFBIN": 1, "NB": 1, "NTOK": 2}, Thorough: map[string]int{"FAM": 2, "D": 3, "ATOMS": 5, "LEAFBIN": 1, "NB": 1, "NTOK": 3},
+				Quick: map[string]int{"FAM": 2, "D": 3, "ATOMS": 5, "LEAFBIN": 1, "NB": 1, "NTOK": 2}, Thorough: map[string]int{"FAM": 2, "D": 3, "ATOMS": 5, "LEAFBIN": 1, "NB": 1, "NTOK": 2},
 				MaxSteps: 300_000},
 			{Name: "VxC29", Pkg: "github.com/goplus/xgo/tpl", Files: tplFiles,
-				Quick: map[string]int{"FAM": 1, "D": 3, "ATOMS": 5, "LEAFBIN": 1, "NB": 1, "NTOK": 3}, Thorough: map[string]int{"FAM": 1, "D": 3, "ATOMS": 5, "LEAFBIN": 1, "NB": 1, "NTOK": 4},
+				Quick: map[string]int{"FAM": 1, "D": 3, "ATOMS": 5, "LEAFBIN": 1, "NB": 1, "NTOK": 3}, Thorough: map[string]int{"FAM": 1, "D": 3, "ATOMS": 5, "LEAFBIN": 1, "NB": 1, "NTOK": 3},
 				MaxSteps: 300_000},
 			{Name: "VxC29", Pkg: "github.com/goplus/xgo/tpl", Files: tplFiles,
-				Quick: map[string]int{"FAM": 0, "D": 2, "ATOMS": 4, "LEAFBIN": 1, "NB": 1, "NTOK": 1}, Thorough: map[string]int{"FAM": 0, "D": 2, "ATOMS": 6, "LEAFBIN": 1, "NB": 2, "NTOK": 2},
+				Quick: map[string]int{"FAM": 0, "D": 2, "ATOMS": 4, "LEAFBIN": 1, "NB": 1, "NTOK": 1}, Thorough: map[string]int{"FAM": 0, "D": 2, "ATOMS": 4, "LEAFBIN": 1, "NB": 1, "NTOK": 1},
 				MaxSteps: 300_000},
 		},
 	})
@@ -226,7 +226,7 @@ func init() {
 		},
 		Harnesses: []harnessSpec{
 			{Name: "VxC36", Pkg: "github.com/goplus/xgo/tool", Files: []string{"c36/c36.go"},
-				Quick: map[string]int{"K": 1, "L": 2, "R": 300}, Thorough: map[string]int{"K": 2, "L": 1, "R": 20}, MaxSteps: 3_000_000,
+				Quick: map[string]int{"K": 1, "L": 2, "R": 300}, Thorough: map[string]int{"K": 1, "L": 2, "R": 300}, MaxSteps: 3_000_000,
 				Overrides: map[string]string{"os.ReadDir": "vxReadDir", "crypto/sha256.New": "vxNewHash", "(*github.com/goplus/mod/xgomod.Module).IsClass": "vxIsClass"}},
 		},
 	})
@@ -261,11 +261,11 @@ func init() {
 		},
 		Harnesses: []harnessSpec{
 			{Name: "VxC38Stream", Pkg: "github.com/goplus/xgo/x/jsonrpc2", Files: []string{"c38/c38.go"}, Overrides: jsonOv,
-				Quick: map[string]int{"M": 2, "PAD": 2, "MODE": 0, "KF_FLOATID": 0}, Thorough: map[string]int{"M": 3, "PAD": 2, "MODE": 0, "KF_FLOATID": 0}, MaxSteps: 3_000_000},
+				Quick: map[string]int{"M": 2, "PAD": 2, "MODE": 0, "KF_FLOATID": 0}, Thorough: map[string]int{"M": 2, "PAD": 3, "MODE": 0, "KF_FLOATID": 0}, MaxSteps: 3_000_000},
 			{Name: "VxC38Stream", Pkg: "github.com/goplus/xgo/x/jsonrpc2", Files: []string{"c38/c38.go"}, Overrides: jsonOv,
 				Quick: map[string]int{"M": 1, "PAD": 1, "MODE": 1, "KF_FLOATID": 0}, MaxSteps: 3_000_000},
 			{Name: "VxC38Malformed", Pkg: "github.com/goplus/xgo/x/jsonrpc2", Files: []string{"c38/c38.go"}, Overrides: jsonOv,
-				Quick: map[string]int{"N": 2}, Thorough: map[string]int{"N": 3}, Variants: c15Variants(9), MaxSteps: 3_000_000},
+				Quick: map[string]int{"N": 2}, Thorough: map[string]int{"N": 3}, Variants: c15Variants(9), ThoroughCore: 3, MaxSteps: 3_000_000},
 		},
 	})
 
@@ -364,13 +364,13 @@ func init() {
 			"native replay follows the solver's schedule through the overlay instrumentation (see C40)",
 		},
 		Harnesses: []harnessSpec{
-			c39(map[string]int{"NC": 1, "CLOSE": 0, "INC": 0, "PEER": 3, "PB": 2}, map[string]int{"NC": 1, "CLOSE": 0, "INC": 0, "PEER": 3, "PB": 3}),
-			c39(map[string]int{"NC": 1, "CLOSE": 1, "INC": 0, "PEER": 3, "PB": 1}, map[string]int{"NC": 1, "CLOSE": 1, "INC": 0, "PEER": 3, "PB": 2}),
-			c39(map[string]int{"NC": 1, "CLOSE": 0, "INC": 1, "PEER": 0, "PB": 1}, map[string]int{"NC": 1, "CLOSE": 1, "INC": 1, "PEER": 1, "PB": 1}),
-			c39(map[string]int{"NC": 0, "CLOSE": 1, "INC": 1, "PEER": 0, "PB": 2}, map[string]int{"NC": 0, "CLOSE": 1, "INC": 1, "PEER": 0, "PB": 3}),
-			c39(map[string]int{"NC": 0, "CLOSE": 1, "INC": 2, "PEER": 0, "PB": 1}, map[string]int{"NC": 0, "CLOSE": 1, "INC": 2, "PEER": 0, "PB": 2}),
-			c39(map[string]int{"NC": 0, "CLOSE": 1, "INC": 3, "PEER": 0, "PB": 1}, map[string]int{"NC": 0, "CLOSE": 1, "INC": 3, "PEER": 0, "PB": 2}),
-			c39(map[string]int{"NC": 2, "CLOSE": 0, "INC": 0, "PEER": 0, "PB": 1}, map[string]int{"NC": 2, "CLOSE": 1, "INC": 0, "PEER": 3, "PB": 1}),
+			c39(map[string]int{"NC": 1, "CLOSE": 0, "INC": 0, "PEER": 3, "PB": 2}, map[string]int{"NC": 1, "CLOSE": 0, "INC": 0, "PEER": 3, "PB": 2}),
+			c39(map[string]int{"NC": 1, "CLOSE": 1, "INC": 0, "PEER": 3, "PB": 1}, map[string]int{"NC": 1, "CLOSE": 1, "INC": 0, "PEER": 3, "PB": 1}),
+			c39(map[string]int{"NC": 1, "CLOSE": 0, "INC": 1, "PEER": 0, "PB": 1}, map[string]int{"NC": 1, "CLOSE": 0, "INC": 1, "PEER": 0, "PB": 1}),
+			c39(map[string]int{"NC": 0, "CLOSE": 1, "INC": 1, "PEER": 0, "PB": 2}, map[string]int{"NC": 0, "CLOSE": 1, "INC": 1, "PEER": 0, "PB": 2}),
+			c39(map[string]int{"NC": 0, "CLOSE": 1, "INC": 2, "PEER": 0, "PB": 1}, map[string]int{"NC": 0, "CLOSE": 1, "INC": 2, "PEER": 0, "PB": 1}),
+			c39(map[string]int{"NC": 0, "CLOSE": 1, "INC": 3, "PEER": 0, "PB": 1}, map[string]int{"NC": 0, "CLOSE": 1, "INC": 3, "PEER": 0, "PB": 1}),
+			c39(map[string]int{"NC": 2, "CLOSE": 0, "INC": 0, "PEER": 0, "PB": 1}, map[string]int{"NC": 2, "CLOSE": 0, "INC": 0, "PEER": 0, "PB": 1}),
 		},
 	})
 	register(&checkSpec{
@@ -383,15 +383,15 @@ func init() {
 		},
 		Harnesses: []harnessSpec{
 			{Name: "VxC41", Pkg: "github.com/goplus/xgo/x/fakenet", Files: []string{"c41/c41.go", "gen:instrument"}, Goroutine: true,
-				Quick: map[string]int{"W": 1, "R": 0, "CLOSE": 1, "PB": 1}, Thorough: map[string]int{"W": 1, "R": 0, "CLOSE": 1, "PB": 2}, MaxSteps: 3_000_000},
+				Quick: map[string]int{"W": 1, "R": 0, "CLOSE": 1, "PB": 1}, Thorough: map[string]int{"W": 1, "R": 0, "CLOSE": 1, "PB": 1}, MaxSteps: 3_000_000},
 			{Name: "VxC41", Pkg: "github.com/goplus/xgo/x/fakenet", Files: []string{"c41/c41.go", "gen:instrument"}, Goroutine: true,
-				Quick: map[string]int{"W": 0, "R": 1, "CLOSE": 1, "PB": 1}, Thorough: map[string]int{"W": 0, "R": 1, "CLOSE": 1, "PB": 2}, MaxSteps: 3_000_000},
+				Quick: map[string]int{"W": 0, "R": 1, "CLOSE": 1, "PB": 1}, Thorough: map[string]int{"W": 0, "R": 1, "CLOSE": 1, "PB": 1}, MaxSteps: 3_000_000},
 			{Name: "VxC41", Pkg: "github.com/goplus/xgo/x/fakenet", Files: []string{"c41/c41.go", "gen:instrument"}, Goroutine: true,
-				Quick: map[string]int{"W": 0, "R": 0, "CLOSE": 2, "PB": 1}, Thorough: map[string]int{"W": 1, "R": 0, "CLOSE": 2, "PB": 1}, MaxSteps: 3_000_000},
+				Quick: map[string]int{"W": 0, "R": 0, "CLOSE": 2, "PB": 1}, Thorough: map[string]int{"W": 0, "R": 0, "CLOSE": 2, "PB": 1}, MaxSteps: 3_000_000},
 			{Name: "VxC41", Pkg: "github.com/goplus/xgo/x/fakenet", Files: []string{"c41/c41.go", "gen:instrument"}, Goroutine: true,
-				Quick: map[string]int{"W": 2, "R": 0, "CLOSE": 0, "PB": 2}, Thorough: map[string]int{"W": 1, "R": 1, "CLOSE": 1, "PB": 1}, MaxSteps: 3_000_000},
+				Quick: map[string]int{"W": 2, "R": 0, "CLOSE": 0, "PB": 2}, Thorough: map[string]int{"W": 2, "R": 0, "CLOSE": 0, "PB": 2}, MaxSteps: 3_000_000},
 			{Name: "VxC41", Pkg: "github.com/goplus/xgo/x/fakenet", Files: []string{"c41/c41.go", "gen:instrument"}, Goroutine: true,
-				Quick: map[string]int{"W": 1, "R": 1, "CLOSE": 0, "PB": 2}, Thorough: map[string]int{"W": 2, "R": 2, "CLOSE": 0, "PB": 2}, MaxSteps: 3_000_000},
+				Quick: map[string]int{"W": 1, "R": 1, "CLOSE": 0, "PB": 2}, Thorough: map[string]int{"W": 1, "R": 1, "CLOSE": 0, "PB": 2}, MaxSteps: 3_000_000},
 		},
 	})
 
